@@ -14,19 +14,29 @@ class Recorder(object):
         self.uniform_calls = []
         self.choice_calls = []
         self.randint_calls = []
+        self.drawn = 0
+
+    def _count(self, r):
+        # a rejection loop that never terminates is reported as a hang long before memory runs out
+        self.drawn += int(np.size(r))
+        if self.drawn > 50000000:
+            raise Hang()
 
     def uniform(self, low=0.0, high=1.0, size=None):
         r = self.rs.uniform(low=low, high=high, size=size)
+        self._count(r)
         self.uniform_calls.append((float(low), float(high), r.copy()))
         return r
 
     def choice(self, a, size=None, replace=True):
         r = self.rs.choice(a, size=size, replace=replace)
+        self._count(r)
         self.choice_calls.append(np.array(r).copy())
         return r
 
     def randint(self, low, high=None, size=None):
         r = self.rs.randint(low, high=high, size=size)
+        self._count(r)
         self.randint_calls.append((int(low), None if high is None else int(high), np.array(r).copy()))
         return r
 
@@ -65,7 +75,7 @@ class RandOps(object):
         if gen == 'fast':
             nsr = 2 ** int(kv['nsr'])
             rec = Recorder(seed)
-            ra, dec = with_watchdog(30, lambda: healsparse.make_uniform_randoms_fast(m, n, nside_randoms=nsr, rng=rec))
+            ra, dec = with_watchdog(20, lambda: healsparse.make_uniform_randoms_fast(m, n, nside_randoms=nsr, rng=rec))
             ra2, dec2 = healsparse.make_uniform_randoms_fast(m, n, nside_randoms=nsr, rng=np.random.RandomState(seed))
             det = int(np.array_equal(ra, ra2) and np.array_equal(dec, dec2))
             valid = int(bool(np.all(m.get_values_pos(ra, dec, valid_mask=True)))) if n > 0 else 1
@@ -80,7 +90,7 @@ class RandOps(object):
             return obs, line
         rec = Recorder(seed)
         try:
-            ra, dec = with_watchdog(30, lambda: healsparse.make_uniform_randoms(m, n, rng=rec))
+            ra, dec = with_watchdog(20, lambda: healsparse.make_uniform_randoms(m, n, rng=rec))
         except Hang:
             return 'hang', 'rand %s gen=uniform n=%d batches= T=1 thr=0 ivs=0:1 rot=0:1' % (pos[0], n)
         ra2, dec2 = healsparse.make_uniform_randoms(m, n, rng=np.random.RandomState(seed))
